@@ -342,6 +342,46 @@ def two_ways_case(args):
     return ("file+splicer_code", lang, name1 + "|" + name2, "one", err)
 
 
+def several_files_case(args):
+    """Several splicer files for one language (input.rst: "a list of files"): the blocks of every file arrive, whichever
+    way the list is given and in either order; a block named in two files takes the body of the later file."""
+    workdir, ydict, lang, name1, name2, base_blocks, way, order = args
+    y = json.loads(json.dumps(ydict))
+    c = COMMENT[lang]
+    fa, fb, fc = "user_a" + EXT[lang], "user_b" + EXT[lang], "user_c" + EXT[lang]
+    files = {fa: "%s splicer begin %s\nfrom_file_a();\n%s splicer end %s\n" % (c, name1, c, name1),
+             fb: "%s splicer begin %s\nfrom_file_b();\n%s splicer end %s\n" % (c, name2, c, name2),
+             fc: "nothing to read here\n"}
+    lst = [fa, fb] if order == 0 else [fb, fa] if order == 1 else [fa, fb, fc]
+    argv = []
+    if way == "yaml":
+        y["splicer"] = {lang: lst}
+    else:
+        argv = lst
+    out, r = gen(workdir, y, files, argv)
+    err = None
+    if r.status != "ok":
+        err = "shroud failed: %s %s" % (r.exc, r.msg)
+    else:
+        got = tree_blocks(out)
+        hits = {name1: 0, name2: 0}
+        for k in sorted(got):
+            if k[0] != lang:
+                continue
+            for nm, body in ((name1, ["from_file_a();"]), (name2, ["from_file_b();"])):
+                if k[3] == nm:
+                    hits[nm] += 1
+                    if norm(got[k]) != body:
+                        err = "splicer files %s (%s): block %s holds %r, the user's file supplies %r" % (lst, way, nm, got[k][:3], body)
+            if k[3] not in hits and k in base_blocks and squash(got[k]) != squash(base_blocks[k]):
+                err = "unrelated block %s in %s changed" % (k[3], k[1])
+        for nm, n in hits.items():
+            if n == 0 and not err:
+                err = "block %s not found" % nm
+    shutil.rmtree(workdir, ignore_errors=True)
+    return ("several-files-" + way, lang, name1 + "|" + name2, "order%d" % order, err)
+
+
 def same_block_case(args):
     """file + splicer_code naming the SAME block: the description (splicer_code) is merged over the files, complete."""
     workdir, ydict, lang, name, base_blocks = args
@@ -554,6 +594,13 @@ def run(ctx):
             i += 1
             tjobs.append((os.path.join(basedir, "w%d" % i), ydict, lang, a, b, base_blocks))
     res += isolate.pmap(two_ways_case, tjobs, W)
+    mjobs = []
+    for t in tjobs:
+        for way in ("yaml", "cmdline"):
+            for order in (0, 1, 2):
+                i += 1
+                mjobs.append((os.path.join(basedir, "w%d" % i),) + t[1:] + (way, order))
+    res += isolate.pmap(several_files_case, mjobs, W)
     sjobs = []
     for lang in ("c", "f", "py", "lua"):
         ln = [n for l, n in names if l == lang]
@@ -561,7 +608,7 @@ def run(ctx):
             i += 1
             sjobs.append((os.path.join(basedir, "w%d" % i), ydict, lang, a, base_blocks))
     res += isolate.pmap(same_block_case, sjobs, W)
-    ctx.part("emitter", runs=len(res), bodies=bodies, ways=ways + ["decl", "decl+splicer_code", "file+splicer_code", "file+splicer_code same block"])
+    ctx.part("emitter", runs=len(res), bodies=bodies, ways=ways + ["decl", "decl+splicer_code", "file+splicer_code", "file+splicer_code same block", "several files (yaml list / command line, both orders, with an empty third)"])
     ctx.count(states=len(res), transitions=len(res), validated=len(res))
     ctx.nontrivial_n(len(res))
     for way, lang, name, bodyname, err in res:
@@ -570,6 +617,8 @@ def run(ctx):
             key = "emitter body=%s" % bodyname if bodyname in ("trailing-plus", "tab") and err.startswith("block ") else "emitter way=%s lang=%s name=%s body=%s" % (way, lang, name, bodyname)
             if way == "file+splicer_code":
                 key = "emitter file+splicer_code lang=%s" % lang
+            if way.startswith("several-files"):
+                key = "emitter %s lang=%s" % (way, lang)
             if way == "file+splicer_code same block":
                 key = "emitter file+splicer_code same block lang=%s" % lang
             ctx.violation(key, err, {"kind": "emit", "way": way, "lang": lang, "name": name, "body": bodyname})
